@@ -285,11 +285,19 @@ def base_case(draw, name, max_len=8, max_src=4, steps="full", min_len=0, min_src
     elif name == "sorted":
         params["reverse"] = draw(st.booleans())
     elif name == "reduce":
-        choice = draw(st.integers(0, 3))
+        choice = draw(st.integers(0, 5))
         if choice == 1:
             v["initial"] = uids.fix(("K", draw(st.integers(0, 3))))
         elif choice == 2:
             v["initial"] = ["n"]
+        elif choice == 3:
+            v["initial"] = uids.fix(("EQ",))  # an explicit initial that is equal to everything
+        elif choice == 4:
+            v["initial"] = uids.fix(("GR", "eq", "ValueError"))  # ... or that cannot be compared at all
+    elif name == "reduce_builtin":
+        params["op"] = draw(st.sampled_from(["add", "max", "add"]))
+        if draw(st.integers(0, 2)) == 0:
+            v["initial"] = draw(st.sampled_from([["i", 0], ["i", 5], ["l", []], ["f", 0.5]]))
     elif name in ("nlargest", "nsmallest"):
         params["n"] = draw(st.integers(-1, longest + 2)) if longest < 10 else draw(st.integers(2, longest))
     if v:
